@@ -65,22 +65,48 @@ JAVA_OPTS = ["-Xss32m"]                     # the reader model recurses per line
 KEY_POOL = ["Source", "Binary", "Maintainer", "Version", "Homepage", "Standards-Version", "Format",
             "Architecture", "Uploaders", "Vcs-Git", "X-Comment", "Description", "Build-Depends",
             "Package", "Section", "Priority", "Testsuite", "a", "Zz9", "X-a_b.c+d"]
-# what the model's x stands for: printable, not whitespace, not ':' '#', never a DESIGN D1 character
+# field names that a normalising or over-eager case-folding reader would merge (all distinct under
+# str.lower(), which is what the library may use); used as neighbours in the same paragraph
+TWIN_KEYS = ["X-Caf\u00e9", "X-Cafe\u0301", "X-\u1100\u1161", "X-\uac00", "X-\ufb01le", "X-file", "X-\uff21bc", "X-Abc",
+             "Stra\u00dfe", "Strasse", "X-\u0131d", "X-id", "X-\u017ft", "X-st", "X-\ufeffbom", "X-bom"]
+# what the model's x stands for: payload -- not whitespace, not a line boundary, not ':' '#', never a
+# DESIGN D1 character.  Character stress (notes/SIZE_STRESS.md part 2): text that is not NFC/NFKC
+# stable next to its precomposed twin, case-mapping hazards, format characters (U+FEFF, ZWJ, ZWNJ,
+# ZWSP, soft hyphen, bidi marks), non-BMP and the last code point; U+0400..U+043F (UTF-8 D0 80..D0 BF:
+# every trailing byte) are rotated to the END of payload runs, i.e. of lines and values.
 X_ASCII = [chr(c) for c in range(33, 127) if c not in (58, 35)]
 X_OTHER = list("éßØЖΩ中日あ€—¿őא٣Ａ①") + ["\U0001F600", "\U00010400"]
+X_HAZARD = ["e\u0301", "\u00e9", "a\u030a", "\u00e5", "\u212b", "\u2126", "\uf9d0", "\ufb01", "\uff21", "\u1100\u1161", "\uac00",
+            "\u0130", "\u0131", "\u017f", "\u03c2", "\u03a3", "\U00010428", "\ufeff", "\u200d", "\u200c", "\u200b", "\u00ad",
+            "\u200e", "\u200f", "\u202e", "\U0010ffff", "\u0301", "\u00c2", "\u00df", "\u1e9e"]
+X_TAIL = [chr(c) for c in range(0x400, 0x440)] + ["\u0800", "\U00010000", "\u07ff", "\uffff"]
+_tail_clock = [0]
+
+
+def tail_char():
+    """the next of U+0400..U+043F (and a few lead-byte neighbours), in rotation"""
+    _tail_clock[0] += 1
+    return X_TAIL[_tail_clock[0] % len(X_TAIL)]
 
 
 def _check_pools():
-    for ch in X_ASCII + X_OTHER:
-        if not ch.isprintable() or ch.isspace() or ch in ":#" or len(ch.splitlines()) != 1 or len(ch) != 1:
+    for ch in X_ASCII + X_OTHER + X_HAZARD + X_TAIL:
+        if any(c.isspace() or c in ":#" or len(c.splitlines()) != 1 or 0xD800 <= ord(c) <= 0xDFFF for c in ch) or not ch:
             raise core.MachineryError("concretizer pool contains %r, which is outside the domain of C08" % ch)
-    low = [k.lower() for k in KEY_POOL]
+    low = [k.lower() for k in KEY_POOL + TWIN_KEYS]
     if len(set(low)) != len(low):
         raise core.MachineryError("key pool not unique up to case")
 
 
 def pick_x(rng):
-    return rng.choice(X_ASCII) if rng.random() < 0.7 else rng.choice(X_OTHER)
+    r = rng.random()
+    if r < 0.6:
+        return rng.choice(X_ASCII)
+    if r < 0.78:
+        return rng.choice(X_OTHER)
+    if r < 0.9:
+        return rng.choice(X_HAZARD)
+    return tail_char()
 
 
 def cp(s):
@@ -146,6 +172,57 @@ def read_back(text, form, ws_default):
             return {"st": "ok", "paras": [list(p.keys()) for p in it]}
     except Exception as e:                                           # noqa: BLE001
         return {"st": "EXC:" + type(e).__name__, "paras": []}
+
+
+ALL_CLASSES = ("Deb822", "Dsc", "Changes", "BuildInfo", "Release", "PdiffIndex")
+GPG_CLASSES = ("Dsc", "Changes", "BuildInfo")              # _gpg_multivalued: a pre-pass cuts the paragraph out
+WAY_FORMS = ("s", "y", "l", "f", "b")                      # str, bytes, text.splitlines(True), io.StringIO, io.BytesIO
+WAYS = [(route, form, pas) for route in ("ctor", "iter") for form in WAY_FORMS for pas in ("kw", "pos")]
+KNOWN_POS_STRICT = "C08-positional-strict-gpg-prepass"
+
+
+def way_name(clsname, way, ws_default):
+    route, form, pas = way
+    src = {"s": "text", "y": "text.encode()", "l": "text.splitlines(True)", "f": "io.StringIO(text)", "b": "io.BytesIO(text.encode())"}[form]
+    strict = "None" if ws_default else "{'whitespace-separates-paragraphs': False}"
+    if route == "ctor":
+        return "%s(%s, %s)" % (clsname, src, ("strict=" + strict) if pas == "kw" else "None, None, 'utf-8', " + strict)
+    return "%s.iter_paragraphs(%s, %s)" % (clsname, src, ("use_apt_pkg=False, strict=" + strict) if pas == "kw" else "None, False, False, 'utf-8', " + strict)
+
+
+def is_known_pos_strict(clsname, way, ws_default):
+    """the signature of the known deviation: gpg-aware class built from a list / file with strict
+    given POSITIONALLY -- the pre-pass looks for strict among the keyword arguments only"""
+    route, form, pas = way
+    return clsname in GPG_CLASSES and route == "ctor" and form in "lfb" and pas == "pos" and not ws_default
+
+
+def read_way(clsname, text, way, ws_default):
+    """the dump read back by the class that produced it: [st, paras] like read_back (a constructor
+    gives one object = one key list)"""
+    route, form, pas = way
+    cls = get_class(clsname)
+    src = {"s": lambda: text, "y": lambda: text.encode("utf-8"), "l": lambda: text.splitlines(True),
+           "f": lambda: io.StringIO(text), "b": lambda: io.BytesIO(text.encode("utf-8"))}[form]()
+    strict = None if ws_default else dict(WS_FALSE)
+    try:
+        with warnings.catch_warnings():
+            warnings.simplefilter("ignore")
+            if route == "ctor":
+                obj = cls(src, strict=strict) if pas == "kw" else cls(src, None, None, "utf-8", strict)
+                return {"st": "ok", "paras": [list(obj.keys())]}
+            if pas == "kw":
+                it = cls.iter_paragraphs(src, use_apt_pkg=False, strict=strict)
+            else:
+                it = cls.iter_paragraphs(src, None, False, False, "utf-8", strict)
+            return {"st": "ok", "paras": [list(p.keys()) for p in it]}
+    except Exception as e:                                           # noqa: BLE001
+        return {"st": "EXC:" + type(e).__name__, "paras": []}
+
+
+def pick_ways(sel, n):
+    """n of the 20 ways, rotating with `sel` so that all of them come up regularly"""
+    return [WAYS[(sel * 7 + i * 9) % len(WAYS)] for i in range(n)]
 
 
 def read_all(d):
@@ -223,8 +300,14 @@ class Conc:
     def random(cls, rng, value, pos):
         c = cls(value, pos)
         c.keys = rng.sample(KEY_POOL, 3)
+        if rng.random() < 0.25:                         # neighbours that only a normalising reader confuses
+            i = 2 * rng.randrange(len(TWIN_KEYS) // 2)
+            j, k = rng.sample(range(3), 2)
+            c.keys[j], c.keys[k] = TWIN_KEYS[i], TWIN_KEYS[i + 1]
         c.nb = [pick_x(rng) for _ in range(3)]
         c.xs = [[pick_x(rng), 1] for _ in c.xs]
+        if c.xs and rng.random() < 0.4:                 # line-final: every UTF-8 trailing byte in turn
+            c.xs[-1] = [tail_char(), 1]
         return c
 
     @classmethod
@@ -303,9 +386,10 @@ def short(s, n=70):
     return "%s...%s (%d chars)" % (show(s[:30]), show(s[-30:]), len(s))
 
 
-def check_case(case, clsname, conc, route="setitem", stats=None):
+def check_case(case, clsname, conc, route="setitem", stats=None, wsel=0, known=None):
     """replay one CASE line; returns (message or None, [drift notes]).  Expected values -- cls, blank,
-    wt -- come from TLC; this function only drives the real class and compares."""
+    wt -- come from TLC; this function only drives the real class and compares.  `known` collects
+    the divergences that carry the signature of the known deviation (judged by the caller)."""
     v = conc.value(case["v"])
     cls = case["cls"]
     keys = conc.keys
@@ -360,6 +444,22 @@ def check_case(case, clsname, conc, route="setitem", stats=None):
             exp = {"st": w["st"], "paras": [[kmap.get(tuple(k), txt(k)) for k in p] for p in w["paras"]]}
             if got != exp and all(tuple(k) in kmap for p in w["paras"] for k in p):
                 drift.append("%s: default-setting read-back (%s) %s, reader model %s" % (where, _formname(f), _rbshow(got), _rbshow(exp)))
+    # ... and through the ways the producing class itself offers (constructor / iter_paragraphs,
+    # str / bytes / list / StringIO / BytesIO, strict by keyword / positionally), rotating
+    nways = 3 if len(text or "") < 20000 else 1
+    for way in pick_ways(wsel, nways):
+        for ws_default in (False, True):
+            if ws_default and case["blank"]:
+                continue                                             # not decided by the statement
+            got = read_way(clsname, text, way, ws_default)
+            if got != one:
+                msg = ("%s accepted; dump %s read back with %s gives %s, expected one paragraph with keys %s"
+                       % (where, short(text or ""), way_name(clsname, way, ws_default), _rbshow(got), ksh))
+                if case["blank"] and is_known_pos_strict(clsname, way, ws_default) and known is not None:
+                    known.append(({"kind": "case", "case": case, "cls": clsname, "conc": conc.to_json(), "route": route,
+                                   "wsel": wsel, "known": KNOWN_POS_STRICT}, msg))
+                    continue
+                return msg, drift
     return None, drift
 
 
@@ -374,7 +474,8 @@ def replay_chunk(payload):
     seed, tier, off, chunk = payload
     quick = tier == "quick"
     rng = random.Random("C08-%s-cases-%d" % (seed, off))
-    out = {"n": 0, "stats": {}, "drift": [], "violations": [], "stress": {}}
+    out = {"n": 0, "stats": {}, "drift": [], "violations": [], "stress": {}, "known": []}
+    known = []
     stats = {}
     big_left = 2 if quick else 8                      # 64 KiB values / 1000 lines / 1000 fields per chunk
     try:
@@ -388,33 +489,30 @@ def replay_chunk(payload):
             # rotating extras: other class / other concretization / update() route
             k = idx % 6
             extra_pos = 1 + (idx // 6) % 3
-            if k < 3:
-                jobs.append((("Dsc", "Changes", "Dsc")[k], Conc(v, extra_pos) if k == 0 else Conc.random(rng, v, extra_pos), "setitem"))
-            elif k < 5:
-                jobs.append(("Deb822", Conc.random(rng, v, extra_pos), "setitem"))
-            else:
-                jobs.append(("Deb822", Conc.random(rng, v, extra_pos), "update"))
+            xcls = ("Dsc", "Changes", "BuildInfo", "Release", "PdiffIndex", "Deb822")[k]
+            jobs.append((xcls, Conc(v, extra_pos) if k == 0 else Conc.random(rng, v, extra_pos), "update" if k == 5 else "setitem"))
             if not quick:
-                jobs.append((("Dsc", "Deb822", "Changes")[idx % 3], Conc.random(rng, v, 1 + (idx // 2) % 3), "setitem"))
+                jobs.append((ALL_CLASSES[(idx // 6) % 6], Conc.random(rng, v, 1 + (idx // 2) % 3), "setitem"))
             # every k-th case also gets a size-stressed concretization
             if idx % STRESS_EVERY[tier] == 0 and len(v) >= 1:
                 sc = Conc.stress(rng, c, 1 + (idx // 8) % 3, allow_big=big_left > 0)
                 if (sc.rep and sc.rep[2] >= 1000) or any(n >= 65535 for _, n in sc.xs) or len(sc.keys) >= 1000:
                     big_left -= 1
-                jobs.append((("Deb822", "Dsc", "Deb822", "Changes")[(idx // 8) % 4], sc, "setitem"))
+                jobs.append((ALL_CLASSES[(idx // 8) % 6], sc, "setitem"))
                 for dname in sc.dims:
                     out["stress"][dname] = out["stress"].get(dname, 0) + 1
-            for clsname, conc, route in jobs:
-                msg, drift = check_case(c, clsname, conc, route, stats)
+            for jn, (clsname, conc, route) in enumerate(jobs):
+                msg, drift = check_case(c, clsname, conc, route, stats, wsel=idx * 5 + jn, known=known)
                 out["n"] += 1
                 if drift and len(out["drift"]) < 3:
                     out["drift"].append(drift[0])
                 if msg:
                     if len(out["violations"]) < 3:
-                        out["violations"].append(({"kind": "case", "case": c, "cls": clsname,
+                        out["violations"].append(({"kind": "case", "case": c, "cls": clsname, "wsel": idx * 5 + jn,
                                                    "conc": conc.to_json(), "route": route}, msg))
                     break
         out["stats"] = {"%s/%s" % k: n for k, n in stats.items()}
+        out["known"] = [len(known), known[:1]]
     except Exception:                                                # noqa: BLE001  harness bug, not an observation
         out["crash"] = traceback.format_exc()
     return out
@@ -457,6 +555,9 @@ class HistConc:
         taken |= {k.lower() for k in self.keymap.values()}
         npad = heavy(rng, [0, 1, 2, 9, 15, 16, 31, 32, 97, 98, 254]) if (stress and rng.random() < 0.4) else rng.choice([0, 0, 0, 1, 2])
         self.pad = [[long_key(rng, rng.choice([2, 7, 8, 16]), taken), simple_value(rng)] for _ in range(npad)]
+        if rng.random() < 0.2:
+            t = 2 * rng.randrange(len(TWIN_KEYS) // 2)
+            self.pad += [[TWIN_KEYS[t], simple_value(rng)], [TWIN_KEYS[t + 1], simple_value(rng)]]
         self.valmap = {}
         for val in values:
             c = {"v": val["v"], "segs": val["segs"]}
@@ -576,6 +677,12 @@ def run_walk(path, init_state, hc, full_every=6):
                     if rb[f + ws] != one:
                         return "%s: object %d dumped %s reads back (%s input, %s) as %s, expected one paragraph with its %d field names" % (
                             where, q + 1, short(text or ""), _formname(f), "setting False" if ws == "F" else "default setting", _rbshow(rb[f + ws]), len(keys)), n
+            for way in pick_ways(i * 3 + q, 2):                      # ... and through its own class
+                for ws_default in (False, True):
+                    got = read_way(hc.classes[q], text, way, ws_default)
+                    if got != one:
+                        return "%s: object %d dumped %s read back with %s gives %s, expected one paragraph with its %d field names" % (
+                            where, q + 1, short(text or ""), way_name(hc.classes[q], way, ws_default), _rbshow(got), len(keys)), n
     return None, n
 
 
@@ -638,7 +745,7 @@ def gen_value(rng):
     if mode < 0.25:                                     # uniform over the seven symbol classes
         n = rng.randint(0, 9)
         s = "".join(rng.choice([pick_x(rng), ":", "#", " ", "\t", "\r", "\n"]) for _ in range(n))
-    elif mode < 0.85:                                   # line structured, mostly well-formed
+    elif mode < 0.72:                                   # line structured, mostly well-formed
         lines = [gen_body(rng, rng.choice([0, 0, 1, 2, 3, 5, 8]))]
         for _ in range(rng.choice([0, 1, 1, 2, 2, 3, 4])):
             r = rng.random()
@@ -664,6 +771,13 @@ def gen_value(rng):
             s += "\r"
         elif r < 0.16:
             s += " "
+    elif mode < 0.80:                                   # CR forms and tab / space mixes: one boundary style
+        bnd = rng.choice(["\r\n", "\r\n", "\r", "\n"])     # throughout, tab-only or mixed indentation,
+        ind = rng.choice(["\t", "\t\t", " \t", "\t ", " "])  # trailing tabs / spaces / CR
+        parts = [gen_body(rng, rng.randint(0, 4))]
+        for _ in range(rng.randint(1, 4)):
+            parts.append(ind + gen_body(rng, rng.randint(1, 5)).replace(" ", "\t") + rng.choice(["", "\t", " ", "\t \t"]))
+        s = bnd.join(parts) + rng.choice(["", "", "\r", "\t", "\r\n"])
     elif mode < 0.88:                                   # armor shaped continuation lines
         s = gen_body(rng, rng.randint(0, 2)) + rng.choice(["\n ", "\n", "\r", "\r\n\t", "\n \r", "\r "]) \
             + rng.choice(["-----BEGIN PGP SIGNATURE-----", "-----END PGP SIGNATURE-----", "-----BEGIN PGP SIGNED MESSAGE-----"]) \
@@ -692,10 +806,13 @@ def enc_para(items):
     return [{"k": cp(k), "v": cp(v)} for k, v in items]
 
 
+TRBNAMES = RBNAMES + ("wF", "wT")
+
+
 def enc_rb(rb):
-    """table of the distinct observations + 1-based index per name (the six are usually equal)"""
+    """table of the distinct observations + 1-based index per name (they are usually equal)"""
     table, ix = [], {}
-    for n in RBNAMES:
+    for n in TRBNAMES:
         o = {"st": rb[n]["st"], "paras": [[cp(k) for k in p] for p in rb[n]["paras"]]}
         if o not in table:
             table.append(o)
@@ -707,20 +824,23 @@ def rb_get(rbj, n):
     return rbj["o"][rbj["ix"][n] - 1]
 
 
-NO_RB = {"o": [], "ix": {n: 0 for n in RBNAMES}}
+NO_RB = {"o": [], "ix": {n: 0 for n in TRBNAMES}}
 
 
 
 
-TRACE_CLASSES = ("Deb822", "Dsc", "Changes", "BuildInfo", "Release")
+TRACE_CLASSES = ALL_CLASSES
 # _multivalued_fields of the classes (lower case): not validated there, ordinary fields elsewhere
 MULTI = {"Deb822": (), "Dsc": ("files", "checksums-sha1", "checksums-sha256", "checksums-sha512"),
          "Changes": ("files", "checksums-sha1", "checksums-sha256", "checksums-sha512"),
          "BuildInfo": ("checksums-md5", "checksums-sha1", "checksums-sha256", "checksums-sha512"),
-         "Release": ("md5sum", "sha1", "sha256", "sha512")}
+         "Release": ("md5sum", "sha1", "sha256", "sha512"),
+         "PdiffIndex": ("sha1-current", "sha1-history", "sha1-patches", "sha256-current", "sha256-history")}
 SPELL = {"files": "Files", "checksums-sha1": "Checksums-Sha1", "checksums-sha256": "Checksums-Sha256",
          "checksums-sha512": "Checksums-Sha512", "checksums-md5": "Checksums-Md5", "md5sum": "MD5Sum",
-         "sha1": "SHA1", "sha256": "SHA256", "sha512": "SHA512"}
+         "sha1": "SHA1", "sha256": "SHA256", "sha512": "SHA512", "sha1-current": "SHA1-Current",
+         "sha1-history": "SHA1-History", "sha1-patches": "SHA1-Patches", "sha256-current": "SHA256-Current",
+         "sha256-history": "SHA256-History"}
 LONG_KEYS = ["X-" + "k" * 31, "Y" * 32, "Z-" + "q" * 62, "W" * 65]          # 33, 32, 64, 65 characters
 
 
@@ -744,6 +864,9 @@ def record_trace(rng, nev, script=None):
         for _ in classes:
             pool = KEY_POOL + ([rng.choice(LONG_KEYS)] if rng.random() < 0.2 else [])
             keys = rng.sample(pool, rng.randint(1, 3))
+            if rng.random() < 0.2:                                             # normalisation twins side by side
+                t = 2 * rng.randrange(len(TWIN_KEYS) // 2)
+                keys = keys[:1] + [TWIN_KEYS[t], TWIN_KEYS[t + 1]]
             starts.append([[k, simple_value(rng)] for k in keys])
     else:
         classes, starts = script["classes"], script["starts"]
@@ -776,7 +899,7 @@ def record_trace(rng, nev, script=None):
                         key = rng.choice(cand)
                     else:
                         key = rng.choice(present)
-                        if rng.random() < 0.2:
+                        if rng.random() < 0.2 and key.isascii():               # (only ASCII case folding is assumed)
                             key = rng.choice([key.lower(), key.upper()])       # another spelling of the same field
             route = "update" if rng.random() < 0.15 else "setitem"
         else:
@@ -792,7 +915,12 @@ def record_trace(rng, nev, script=None):
             res = assign(objs[obj - 1], key, v, route)
         items = _items_all(objs)
         if obj != 0 and res == "ok":
-            _, rb = read_all(objs[obj - 1])
+            text, rb = read_all(objs[obj - 1])
+            # one of the ways of the object's own class, rotating (the way with the known deviation
+            # is judged in the CASE replay only)
+            way = [w for w in pick_ways(i + len(v), 3) if not is_known_pos_strict(clsname, w, False)][0]
+            for ws_default, name in ((False, "wF"), (True, "wT")):
+                rb[name] = read_way(clsname, text, way, ws_default) if text is not None else rb["sF"]
             rbj = enc_rb(rb)
         else:
             rbj = NO_RB
@@ -815,7 +943,7 @@ def _ev(obj, cls, key, v, acc, items, rb=None, res=None):
 
 
 def _rb(keys, **over):
-    r = {n: {"st": "ok", "paras": [keys]} for n in RBNAMES}
+    r = {n: {"st": "ok", "paras": [keys]} for n in TRBNAMES}
     for n, paras in over.items():
         r[n] = {"st": "ok", "paras": paras}
     return enc_rb(r)
@@ -850,7 +978,7 @@ def control_traces():
     out = []
     # an injecting value reported as accepted, with the read-back it would give
     out.append(_tr([_ev(1, "Deb822", "B", bad, True, [[["A", "x"], ["B", bad], ["C", "x"]], Q1],
-                        _rb(K3, **{n: [["A", "B", "z", "C"]] for n in RBNAMES}))]))
+                        _rb(K3, **{n: [["A", "B", "z", "C"]] for n in TRBNAMES}))]))
     # ... and with a read-back that hides it: acceptance alone must be rejected
     out.append(_tr([_ev(1, "Deb822", "B", bad, True, [[["A", "x"], ["B", bad], ["C", "x"]], Q1], _rb(K3))]))
     # the same after a multivalued-key assignment of that value (memo keyed by the value only)
@@ -947,6 +1075,8 @@ NEG_CONTROLS = (
     ("AllowEndLF", "Deb822Value", "MC_Deb822Value_neg.cfg", {"AllowEndLF": "TRUE"}, "Sound"),
     ("ValidateLFOnly", "Deb822Value", "MC_Deb822Value_neg.cfg", {"ValidateLFOnly": "TRUE"}, "Sound"),
     ("ReaderNoWsRule", "Deb822Value", "MC_Deb822Value_neg.cfg", {"ReaderNoWsRule": "TRUE"}, "Sound"),
+    ("StrictDroppedInGpgClasses", "Deb822Value", "MC_Deb822Value_neg.cfg", {"StrictDroppedInGpgClasses": "TRUE"}, "Sound"),
+    ("PosStrictMissedByPrepass", "Deb822Value", "MC_Deb822Value_neg.cfg", {"PosStrictMissedByPrepass": "TRUE"}, "Sound"),
     ("MemoByValueOnly", "Deb822ValueHist", "MC_Deb822ValueHist_neg.cfg", {"MemoMode": '"value"'}, "HistoryFree"),
     ("MemoByKeyValue", "Deb822ValueHist", "MC_Deb822ValueHist_neg.cfg", {"MemoMode": '"keyvalue"'}, "HistoryFree"),
     ("RejectStoresEmpty", "Deb822ValueHist", "MC_Deb822ValueHist_neg.cfg", {"RejectStoresEmpty": "TRUE"}, "HistoryFree"),
@@ -1075,6 +1205,8 @@ def run(ctx):
     #    seeded generators: the result does not depend on the number of processes)
     stats = {}
     stress = {}
+    n_known = 0
+    known_ex = []
     n_checked = 0
     n_bad = 0
     sampled = set()
@@ -1099,6 +1231,21 @@ def run(ctx):
             if n_bad < 3:
                 ctx.violation(vcase, msg)
             n_bad += 1
+        nk, kex = r["known"]
+        n_known += nk
+        known_ex += kex
+    # divergences with the signature of the known deviation of the code (the model has it as the
+    # constant PosStrictMissedByPrepass): a KNOWN-FINDING while known_findings.json lists it as open,
+    # a violation otherwise
+    if n_known:
+        if ctx.known_open(KNOWN_POS_STRICT):
+            for _ in range(n_known):
+                ctx.known_hit(KNOWN_POS_STRICT)
+        else:
+            for vcase, msg in known_ex[:1]:
+                ctx.violation(vcase, msg + "  [signature %s: gpg-aware class built from a list / file with strict passed positionally -- %d such divergences in this run]" % (KNOWN_POS_STRICT, n_known))
+            n_bad += n_known
+    ctx.extra["known_deviation_hits"] = {KNOWN_POS_STRICT: n_known}
     for idx, c in enumerate(cases):
         v = c["v"]
         nontrivial = any(x in (10, 13) for x in v)
@@ -1188,7 +1335,9 @@ def _evshow(t, i):
 def replay(ctx, case):
     if case["kind"] == "case":
         conc = Conc.from_json(case["conc"])
-        msg, _ = check_case(case["case"], case["cls"], conc, case.get("route", "setitem"))
+        known = []
+        msg, _ = check_case(case["case"], case["cls"], conc, case.get("route", "setitem"), wsel=case.get("wsel", 0),
+                            known=known if (case.get("known") and ctx.known_open(case["known"])) else None)
         return msg
     if case["kind"] == "walk":
         hc = HistConc.from_json(case["conc"])
